@@ -226,3 +226,6 @@ func Range(a, b int32) *gripql.GraphStatement {
 func Aggregate(aggs ...*gripql.Aggregate) *gripql.GraphStatement {
 	return &gripql.GraphStatement{Statement: &gripql.GraphStatement_Aggregate{Aggregate: &gripql.Aggregations{Aggregations: aggs}}}
 }
+
+// StmtsOf builds a statement list.
+func StmtsOf(s ...*gripql.GraphStatement) []*gripql.GraphStatement { return s }
